@@ -14,12 +14,19 @@ func (u verifHEVC) typ() uint8     { return u.h0 >> 1 & 0x3F }
 func (u verifHEVC) layerID() uint8 { return u.h0&1<<5 | u.h1>>3 }
 func (u verifHEVC) tid() uint8     { return u.h1 & 7 }
 
+// verifHEVCAllowTID0 is set by the harnesses that build RTP payloads directly
+var verifHEVCAllowTID0 bool
+
 func verifHEVCUnit(size int) verifHEVC {
 	t := verifU8("type") & 0x3F
 	verifAssume(t <= 47)
 	layer := verifU8("layer") & 0x3F
 	tid := verifU8("tid") & 7
-	verifAssume(tid >= 1) // nuh_temporal_id_plus1 is never 0
+	if !verifHEVCAllowTID0 {
+		// in an Annex-B stream nuh_temporal_id_plus1 = 0 would let an all-zero NAL header run
+		// into the start code; the independent packet encoder below has no such limit
+		verifAssume(tid >= 1)
+	}
 	return verifHEVC{h0: t<<1 | layer>>5, h1: layer<<3 | tid, body: verifAnnexBBody(size - 2)}
 }
 
@@ -243,6 +250,8 @@ func VerifC14Accessors() {
 
 // (c) independent encoder of single / AP / FU payloads with and without DONL, and their truncations
 func VerifC14Decoder() {
+	verifHEVCAllowTID0 = true
+	defer func() { verifHEVCAllowTID0 = false }()
 	donl := verifCase("donl", 0, 1) == 1
 	dep := &H265Packet{}
 	dep.WithDONL(donl)
